@@ -29,6 +29,10 @@ struct Part {
     marking_order: [u64; 3], // top, nested, inside disclosed value: issuances in which the list is in marking order
     lists_seen: [u64; 3],
     failures: u64,
+    // top-level lists that hold real digests and decoys: [13-claim document, one-claim document];
+    // real_first = those in which every real digest precedes every decoy
+    mixed_seen: [u64; 2],
+    real_first: [u64; 2],
 }
 
 fn real_subsequence_in_marking_order(list: &[Value], digests_in_marking_order: &[String]) -> Option<bool> {
@@ -44,11 +48,19 @@ fn run_part(n: u64, offset: u64) -> Part {
     let (doc, paths) = document();
     let key = sdjwt::KeyForEncoding::from_secret(b"k");
     let mut part = Part { min_salt_len: usize::MAX, ..Default::default() };
+    // a credential with exactly one disclosable claim (every fourth issuer object): with decoys around it,
+    // its single real digest must not be recognisable by its position
+    let single_doc = json!({"a": 1, "z": {"k": 1}});
     for i in 0..n {
         let max = ((offset + i) % 50) as i32 + 1;
-        let mut iss = match sdjwt::Issuer::new(doc.clone()) { Ok(i) => i, Err(_) => { part.failures += 1; continue; } };
-        for p in &paths {
-            iss.disclosable(p);
+        let single = i % 4 == 3;
+        let mut iss = match sdjwt::Issuer::new(if single { single_doc.clone() } else { doc.clone() }) { Ok(i) => i, Err(_) => { part.failures += 1; continue; } };
+        if single {
+            iss.disclosable("/a");
+        } else {
+            for p in &paths {
+                iss.disclosable(p);
+            }
         }
         iss.decoy(max).header(sdjwt::Header::new(sdjwt::Algorithm::HS256));
         // a second encode on the same object every other time: issuance repeated from one issuer object
@@ -88,6 +100,17 @@ fn run_part(n: u64, offset: u64) -> Part {
             for d in &decoys {
                 if d.len() != real_len || !d.bytes().all(|c| c.is_ascii_alphanumeric() || c == b'-' || c == b'_') {
                     part.bad_form += 1;
+                }
+            }
+            {
+                let is_real: Vec<bool> = top.iter().map(|x| x.as_str().map_or(false, |s| digests_mo.iter().any(|g| g == s))).collect();
+                let reals = is_real.iter().filter(|b| **b).count();
+                if reals > 0 && reals < is_real.len() {
+                    let k = if single { 1 } else { 0 };
+                    part.mixed_seen[k] += 1;
+                    if is_real[..reals].iter().all(|b| *b) {
+                        part.real_first[k] += 1;
+                    }
                 }
             }
             part.decoys.extend(decoys);
@@ -149,6 +172,10 @@ pub fn exec_history(input: &Value) -> Value {
             sum.marking_order[k] += p.marking_order[k];
             sum.lists_seen[k] += p.lists_seen[k];
         }
+        for k in 0..2 {
+            sum.mixed_seen[k] += p.mixed_seen[k];
+            sum.real_first[k] += p.real_first[k];
+        }
     }
     let (dup_salts, ds) = dups(&salts);
     let (dup_digests, dd) = dups(&digests);
@@ -162,6 +189,7 @@ pub fn exec_history(input: &Value) -> Value {
         "dup_salts": dup_salts, "dup_digests": dup_digests, "dup_decoys": dup_decoys, "decoy_equals_real": decoy_is_real,
         "decoy_count_violations": sum.count_violations, "decoy_form_violations": sum.bad_form,
         "lists_seen": sum.lists_seen, "lists_in_marking_order": sum.marking_order,
+        "mixed_lists_seen": sum.mixed_seen, "mixed_lists_real_first": sum.real_first,
         "example_dup": [ds, dd, dc],
     })
 }
